@@ -86,6 +86,48 @@ def ranges(ids):
     return ','.join(out)
 
 
+def unranges(txt):
+    out = []
+    for it in txt.split(','):
+        if it == '':
+            continue
+        a, _, z = it.partition('-')
+        out += list(range(int(a), int(z or a) + 1))
+    return out
+
+
+def fault_ids(sc):
+    """ids of the messages logged while the device rejected writes (z): such a record may be lost"""
+    ids, i = [], 0
+    if sc['msgs'] in ('-', ''):
+        return ids
+    for it in sc['msgs'].split(','):
+        t, body = it[0], it[1:]
+        n = int(body.split('*')[1]) if '*' in body else 1
+        if t == 'z':
+            ids += list(range(i, i + n))
+        i += n
+    return ids
+
+
+def forgive_faults(files, reference, zids):
+    """a record written during a device fault may be lost: where the reference has such a record and the file
+    does not, it is counted as present (nothing else is touched)"""
+    if not zids or not reference or reference == '?':
+        return files
+    fs, rs = files.split(';'), reference.split(';')
+    if len(fs) != len(rs):
+        return files
+    out = []
+    for f, r in zip(fs, rs):
+        if f == 'X' or r == 'X':
+            out.append(f); continue
+        have, want = unranges(f), set(unranges(r))
+        add = [z for z in zids if z in want and z not in have]
+        out.append(ranges(sorted(have + add)) if add else f)
+    return ';'.join(out)
+
+
 def nsinks(tree):
     t = MODEL_TREE.get(tree, tree)
     return sum(1 for c in t if c in 'FRrDB')
@@ -155,7 +197,9 @@ def scenarios(chk):
     rng, thorough = chk.rng, chk.tier == 'thorough'
     kinds = ['oF', 'oR', 'oFR', 'o(F)', 'oF(oR(F))', 'ONE', 'ONER', 'FLU', 'FLUN', 'oD', 'or', 'F',
              # filters in front of file sinks (some reject the fatal message), a full device before healthy sinks
-             'FLUT', 'FLUC', 'FLUB', 'o(gF)F', 'onF', 'olF', 'o(eF)(xR)', 'oB(F)R']
+             'FLUT', 'FLUC', 'FLUB', 'o(gF)F', 'onF', 'olF', 'o(eF)(xR)', 'oB(F)R',
+             # null entries in the handler lists (initializer-list append)
+             'oNFR', 'N(FN)NF']
     heavy_kinds = kinds if thorough else ['oF', 'oR', 'ONE', 'oF(oR(F))']
     out = []
 
@@ -172,12 +216,20 @@ def scenarios(chk):
                     add(tree, 'fatal', thread, [('m', size)] * k, 13 if size == 10 else size, 'matrix')
                 if tree not in MODEL_TREE and k > 0:   # SIGKILL instead of qFatal: validates the buffering model
                     add(tree, 'kill', 'main', [('m', size)] * k, 13, 'matrix-kill')
+    # another thread is inside the logger (slow handler, mutex held) when the fatal message is raised
+    for tree, ml in (('SoF', [('m', 10)] * 3), ('oS(gF)R', [('m', 10)] * 4)):
+        add(tree, 'fatal', 'busy', ml, 13, 'busy-logger')
+    # a transient device fault before the fatal: one record may be lost, everything after it must be on disk
+    for tree in ('oF', 'oFR', 'o(F)R'):
+        for fsz in (20000, 10):
+            add(tree, 'fatal', 'main', [('m', 10)] * 3 + [('z', fsz)] + [('m', 10)] * 3, 13, 'device-fault')
+    add('ONE', 'fatal', 'sec', [('i', 10)] * 2 + [('z', 30000)] + [('w', 10)] * 2, 13, 'device-fault')
     # random trees and histories aimed at the case splits: buffer overflow (pre-flush), blocks above the
     # chunk size (bypass), exactly the chunk size, all message types, deeper nesting, several sinks
     def rtree(depth):
         s = ''
         for _ in range(rng.randint(1, 3)):
-            c = rng.choice('FFRRDBoo((gnexly' if depth < 3 else 'FRDBognexly')
+            c = rng.choice('FFRRDBooN((gnexly' if depth < 3 else 'FRDBoNgnexly')
             s += ('(' + rtree(depth + 1) + ')') if c == '(' else c
         return s
     n_rand = 400 if thorough else 48
@@ -227,6 +279,8 @@ def run():
                        'filters are stateless predicates of the message (function, level, category, regexp filters); a duplicate filter is outside the model',
                        'a file sink on a device that keeps nothing (/dev/full) has no file to check; it must not keep other sinks from being flushed',
                        'process death, not power loss: data handed to the kernel by write() counts as in the file',
+                       'a record written while the device rejects the write (transient fault, z messages) may be lost; every record '
+                       'logged after the fault has cleared must be on disk (the comparison counts the faulted record as present)',
                        'rotation (64 KiB scenarios) conserves records across the rotated files (C05); their concatenation is compared']
     chk.proof(vlib.proof_leg('Properties_C11', ['fatal']))
     model = vlib.build_model('fatal')
@@ -241,6 +295,11 @@ def run():
         res = list(ex.map(lambda s: run_impl(impl, s), scs))
     # oracle on the implementation's files (fatal scenarios only: the property speaks of a fatal message)
     fat = [i for i, s in enumerate(scs) if s['end'] == 'fatal']
+    _, exp_all, _ = vlib.run_lines(model, [model_line(scs[i]) for i in fat], ['expected'])
+    exp_of = dict(zip(fat, exp_all))
+    for i in fat:
+        res[i]['files_raw'] = res[i]['files']
+        res[i]['files'] = forgive_faults(res[i]['files'], exp_of.get(i), fault_ids(scs[i]))
     _, verdicts, _ = vlib.run_lines(model, ['%s | %s' % (model_line(scs[i]), res[i]['files']) for i in fat], ['oracle'])
     verdict = dict(zip(fat, verdicts))
     falsified, dis, wrong_death = [], [], []
@@ -248,16 +307,25 @@ def run():
         want_rc = -6 if s['end'] == 'fatal' else -9
         if r['rc'] != want_rc:
             wrong_death.append(i)
-        bad = (s['end'] == 'fatal' and verdict.get(i) != '1') or bool(r['defects'])
+        # after a fatal message the process must die by abort() (SIGABRT), not by another signal, and not survive
+        bad = (s['end'] == 'fatal' and (verdict.get(i) != '1' or r['rc'] != -6)) or bool(r['defects'])
         if bad:
             falsified.append(i)
         if r['files'] != m:
             dis.append(i)
 
-    def fails(sc):
+    def run_canon(sc):
         r = run_impl(impl, sc)
+        _, ex, _ = vlib.run_lines(model, [model_line(sc)], ['expected'])
+        r['files'] = forgive_faults(r['files'], ex[0] if ex else None, fault_ids(sc))
+        return r, (ex[0] if ex else '?')
+
+    def fails(sc):
+        if sc['thread'] == 'busy' and sc['msgs'] in ('-', ''):
+            return False
+        r, _ = run_canon(sc)
         _, v, _ = vlib.run_lines(model, ['%s | %s' % (model_line(sc), r['files'])], ['oracle'])
-        return (sc['end'] == 'fatal' and (not v or v[0] != '1')) or bool(r['defects'])
+        return (sc['end'] == 'fatal' and (not v or v[0] != '1' or r['rc'] != -6)) or bool(r['defects'])
 
     if falsified:
         # smallest failing scenario, then fewer/smaller preceding messages
@@ -267,18 +335,23 @@ def run():
         sc['msgs'] = compress(ml)
         if sc['thread'] != 'main' and fails(dict(sc, thread='main')):
             sc['thread'] = 'main'
-        r = run_impl(impl, sc)
+        r, ex0 = run_canon(sc)
+        ex = [ex0]
         _, mo, _ = vlib.run_lines(model, [model_line(sc)])
-        _, ex, _ = vlib.run_lines(model, [model_line(sc)], ['expected'])
         k = len(ml)
+        death = {-6: 'SIGABRT', -11: 'SIGSEGV', -9: 'SIGKILL'}.get(r['rc'], 'exit status %r' % (r['rc'],))
         chk.fail('after qFatal the files of the file sinks lack records that reached them: tree %s (%s), preceding messages %s, fatal from the %s thread: '
-                 'files hold [%s], the property demands [%s] (per file sink in depth-first order; X = sink on /dev/full)'
-                 % (sc['tree'], KIND_NAMES.get(sc['tree'], 'handler tree'), sc['msgs'], sc['thread'], r['files'], ex[0] if ex else '?'),
+                 'the process died by %s (abort after the fatal message = SIGABRT), files hold [%s], the property demands [%s] '
+                 '(per file sink in depth-first order; X = sink on /dev/full)'
+                 % (sc['tree'], KIND_NAMES.get(sc['tree'], 'handler tree'), sc['msgs'], sc['thread'], death, r['files'], ex[0] if ex else '?'),
                  {'kind': 'records-missing-after-fatal', 'tree': sc['tree'], 'configuration': KIND_NAMES.get(sc['tree'], 'handler tree'),
                   'end': sc['end'], 'thread': sc['thread'], 'msgs': sc['msgs'], 'fatalsize': sc['fatalsize'],
                   'records_in_files_per_sink': r['files'], 'expected_per_sink': ex[0] if ex else None,
                   'tree_legend': 'F R r D file sinks, B file sink on /dev/full, g n e x l y filters (debug only, not fatal, even ids, odd ids, '
-                                 '>= warning, category rule debug only), o formatter, ( ) nested pipeline; message i has type diwc[i%4] for m',
+                                 '>= warning, category rule debug only), o formatter, N null handler entry, S handler sleeping 2 s on non-main '
+                                 'threads, ( ) nested pipeline; message i has type diwc[i%4] for m; z = logged while the device rejects writes; '
+                                 'thread busy = last preceding message held inside the logger by a helper thread when main raises the fatal',
+                  'died_by': death,
                   'byte_defects': r['defects'], 'model_with_translated_source_predicts': mo[0] if mo else None,
                   'exit_status': r['rc'], 'falsified_scenarios': len(falsified),
                   'how': 'build/h_fatal <dir> <tree> <end> <thread> <msgs> <fatalsize>; see harness/h_fatal.cpp'},
@@ -288,6 +361,7 @@ def run():
         chk.broke('correspondence: model (with the translated source) and the real files differ in %d scenarios, e.g. %s: files [%s], model [%s]'
                   % (len(dis), json.dumps({k: scs[i][k] for k in ('tree', 'end', 'thread', 'msgs', 'fatalsize')}), res[i]['files'], out_m[i]),
                   dict(scs[i], kind='correspondence', implementation=res[i]['files'], model=out_m[i]))
+    wrong_death = [i for i in wrong_death if scs[i]['end'] != 'fatal']
     if wrong_death and not falsified:
         i = wrong_death[0]
         chk.broke('harness did not die as scripted (exit status %r) in %d scenarios' % (res[i]['rc'], len(wrong_death)),
@@ -306,7 +380,6 @@ def run():
             chk.broke('the header-only build (qtlogger.h) leaves different files than the library build in %d scenarios, e.g. %s'
                       % (len(bad_h), json.dumps({k: scs[i][k] for k in ('tree', 'end', 'thread', 'msgs', 'fatalsize')})),
                       dict(scs[i], kind='header-only-differs', library=res[i]['files']))
-    _, exp_all, _ = vlib.run_lines(model, [model_line(scs[i]) for i in fat], ['expected'])
     not_reached = sum(1 for i, e in zip(fat, exp_all) if any(f != 'X' and not f.endswith(str(len(expand(scs[i]['msgs'])))) for f in e.split(';')))
     hits = [boundary_hits(s) for s in scs]
     nontriv = {(s['tree'], s['end'], s['thread'], s['msgs'], s['fatalsize']) for s in scs if s['end'] == 'fatal' and s['msgs'] != '-'}
@@ -323,6 +396,10 @@ def run():
         'random_tree_sinks': hist(lambda s: nsinks(s['tree']) if s['origin'] == 'random' else 0),
         'random_tree_nested': sum(1 for s in scs if s['origin'] == 'random' and '(' in s['tree']),
         'scenarios_with_filter': sum(1 for s in scs if set(MODEL_TREE.get(s['tree'], s['tree'])) & set('gnexly')),
+        'scenarios_with_null_handler_entry': sum(1 for s in scs if 'N' in s['tree'] and s['tree'] not in MODEL_TREE),
+        'scenarios_with_transient_device_fault': sum(1 for s in scs if fault_ids(s)),
+        'scenarios_with_busy_logger': sum(1 for s in scs if s['thread'] == 'busy'),
+        'fatal_scenarios_died_by_sigabrt': sum(1 for i in fat if res[i]['rc'] == -6),
         'scenarios_with_full_device_sink': sum(1 for s in scs if 'B' in MODEL_TREE.get(s['tree'], s['tree'])),
         'fatal_scenarios_where_some_sink_is_not_reached_by_the_fatal': not_reached,
         'boundary_hits': {'scenarios_with_buffer_overflow_flush': sum(1 for h in hits if h[0]),
